@@ -155,6 +155,13 @@ def whole_devs(what, first, firstvals, second, secondvals):
     out = []
     if not (want * (1 - 1e-9) <= tot <= want * (1 + 0.05)):
         out.append(('C04', 'not-conserved:whole-number-variable', f'{what}: the integrated variable handed over as int64 array {np.asarray(secondvals).tolist()} totals {tot} after gridding'))
+    # one segment: every piece carries the same SHARE of either variable (round 17: shares formed in the caller's dtype)
+    fv = np.asarray(firstvals, float)
+    if len(fv) == 1 and np.size(secondvals) == 1 and fv[0] > 0 and want > 0 and len(a):
+        d = np.abs(b / want - a / fv[0])
+        if np.any(d > 1e-9):
+            i = int(np.argmax(d))
+            out.append(('C05', 'share-differs:whole-number-variable', f'{what}: piece {i} carries {b[i] / want:.9f} of the int64 variable but {a[i] / fv[0]:.9f} of the float64 one'))
     return out
 
 
